@@ -857,6 +857,40 @@ def law_ff(env, vx, vg):
     return None
 
 
+def ball_contract(P, c, r):
+    """certificate that (c, r) is THE minimal enclosing ball of the points P: contains them and the centre is a
+    convex combination of the points on its boundary (1e-7 relative)"""
+    from scipy.optimize import nnls
+    P = np.asarray(P, dtype=float)
+    d = np.linalg.norm(P - c, axis=1)
+    if d.max() > r * (1 + 1e-9):
+        return False
+    S = P[d > r * (1 - 1e-7)]
+    if len(S) == 0:
+        return False
+    A = np.vstack([(S - c).T / r, np.ones(len(S)) * 10.0])
+    b = np.r_[np.zeros(P.shape[1]), 10.0]
+    _, res = nnls(A, b)
+    return bool(res < 1e-6)
+
+
+def miniball_ok(env, name):
+    """external-solver contract (miniball is randomised Welzl in floating point; on degenerate inputs it now and
+    then returns a ball that is not minimal or does not contain the points): both sides must carry a certificate"""
+    for which, shp in (("x", env.sx), ("g", env.sg)):
+        v = env.val(which, name.replace("_radius", ""))
+        if v is None:
+            continue
+        if not ball_contract(np.asarray(shp.vertices, dtype=float), v["center"], v["radius"]):
+            env.ctx.contract_failures.append({"contract": "miniball returns the minimal enclosing ball",
+                                              "query": name, "side": which, "cls": env.cls,
+                                              "radius": v["radius"], "center": v["center"].tolist(),
+                                              "case": (env.case if which == "x" else env.gcase).get("kind")})
+            env.ctx.count("contract:miniball-failed")
+            return False
+    return True
+
+
 def compare(env):
     """all queries of g(x) against g(queries of x); returns list of (query, what, detail)"""
     out = []
@@ -881,6 +915,8 @@ def compare(env):
         law = LAWS.get(name)
         if law is None:
             ctx.count("unclassified-member:" + name)
+            continue
+        if name in MINIBALL and hasattr(env.sx, "vertices") and not miniball_ok(env, name):
             continue
         try:
             msg = check_law(env, name, law, a[1], b[1])
@@ -1176,6 +1212,12 @@ G_KINDS = ["rotation", "translation", "scaling", "relabel", "composite"]
 
 
 def eval_case(ctx, case, gs):
+    with warnings.catch_warnings():
+        warnings.simplefilter("ignore")      # numpy RuntimeWarnings of the library (arccos of -1-ulp, 0/0 in dts)
+        _eval_case(ctx, case, gs)
+
+
+def _eval_case(ctx, case, gs):
     """x = case, gs = list of transformations (dicts).  All queries on x once, on every g(x) once."""
     cls = case["cls"]
     try:
@@ -1352,6 +1394,22 @@ def corpus(ctx):
         out.append((rect_case(cls, 2.0, 1.0, o=(0.25, 0.5)), rots + far[:1]))
     out.append((rect_case("Polygon", 2.0, 1.0, o=(-1.0, -0.5), cw=True), rots + scales))
     out.append((rect_case("ConvexSpheropolygon", 2.0, 1.0, o=(-1.0, -0.5), radius=0.3), rots + scales + far[:1]))
+    # the same vertices listed clockwise (normal -z): distance_to_surface must not mirror the shape
+    rev = ident("relabel", relabel={"perm": [3, 2, 1, 0]})
+    out.append((rect_case("ConvexPolygon", 2.0, 1.0, o=(0.25, 0.5)), [rev]))
+    out.append((dict(rect_case("ConvexPolygon", 2.5, 2.0), vertices=[[1, 2.5, 0], [3.5, 2, 0], [3, 0, 0], [0, 0, 0]][::-1]), [rev]))
+    out.append((rect_case("ConvexSpheropolygon", 1.0, 1.0, radius=0.1), [rev]))
+    # large and far away (coordinates ~1e4): star / spiral polygons that an unnormalised sweep rejects
+    for seed, kind in ((0, "star"), (3, "spiral"), (44, "star"), (56, "star")):
+        _, p2 = gen.polygon2d(np.random.default_rng(seed), kind)
+        c = {"cls": "Polygon", "vertices": np.c_[p2, np.zeros(len(p2))].tolist(), "normal": None, "kind": kind,
+             "plane": "xy", "orientation": "ccw"}
+        size = case_size(c)
+        gs = []
+        for u in ((1.0, 1.0, 0.0), (1.0, -0.3, 0.0), (-0.6, 1.0, 0.0)):
+            u = np.array(u)
+            gs.append(ident("composite", s=800.0, t=u / np.linalg.norm(u) * 9.0 * size * 800.0))
+        out.append((c, gs))
     # Bentley-Ottmann sweep on a normalised copy: a valid comb far from the origin / large
     comb = np.array([[0, -0.5], [3.4, -0.5], [3.4, 0], [3.4, 1.5], [2.4, 1.5], [2.4, 0], [2.0, 0], [2.0, 1.0], [1.0, 1.0],
                      [1.0, 0], [0.6, 0], [0.6, 2.0], [0, 2.0], [0, 0]], dtype=float)
